@@ -1,8 +1,1467 @@
-//! C01 — not built yet.
+//! C01 — every Z80 instruction yields the architected register/flag/memory/IO result.
+//! Also the shared machinery of C02 (interrupt/HALT/prefix sequencing) and C03 (bus cycles):
+//! a harness-owned recording `Z80Bus`, the real-code runner, the line protocol of the Lean
+//! driver `C01`, comparison, keying and shrinking.
+//!
+//! Real code: `rustzx_z80::Z80::emulate` driven through the public API + hooks H3
+//! (`verif_set_active_prefix`, `verif_set_q`). The bus implements ONLY the required methods of
+//! `Z80Bus`; `read/write/wait_loop/read_word/write_word` are the crate's provided methods, so a
+//! change in bus.rs is visible in the recorded call sequence.
 use crate::util::*;
+use rustzx_z80::{IntMode, Prefix, Z80Bus, Z80};
+use std::collections::{HashMap, VecDeque};
+use std::panic::{catch_unwind, AssertUnwindSafe};
 
-pub fn run(_o: &Opts) -> Report {
+// ---------------------------------------------------------------------------------------------
+// bus events
+// ---------------------------------------------------------------------------------------------
+
+#[derive(Clone, Copy, PartialEq, Eq, Debug)]
+pub enum Ev {
+    M(u16, usize),
+    N(u16, usize),
+    I(usize),
+    R(u16, u8),
+    W(u16, u8),
+    Ior(u16, u8),
+    Iow(u16, u8),
+    K(u8),
+    T,
+    H(bool),
+    P(u16),
+}
+
+impl Ev {
+    pub fn text(&self) -> String {
+        match *self {
+            Ev::M(a, c) => format!("M{:04x}:{:x}", a, c),
+            Ev::N(a, c) => format!("N{:04x}:{:x}", a, c),
+            Ev::I(c) => format!("I{:x}", c),
+            Ev::R(a, v) => format!("R{:04x}:{:02x}", a, v),
+            Ev::W(a, v) => format!("W{:04x}:{:02x}", a, v),
+            Ev::Ior(p, v) => format!("i{:04x}:{:02x}", p, v),
+            Ev::Iow(p, v) => format!("o{:04x}:{:02x}", p, v),
+            Ev::K(v) => format!("K{:02x}", v),
+            Ev::T => "T".to_string(),
+            Ev::H(b) => format!("H{}", if b { 1 } else { 0 }),
+            Ev::P(a) => format!("P{:04x}", a),
+        }
+    }
+}
+
+/// T-states a textual event stands for (port cycles count 4)
+pub fn ev_tstates(t: &str) -> u64 {
+    let b = t.as_bytes();
+    match b.first() {
+        Some(b'M') | Some(b'N') => u64::from_str_radix(t.rsplit(':').next().unwrap_or("0"), 16).unwrap_or(0),
+        Some(b'I') => u64::from_str_radix(&t[1..], 16).unwrap_or(0),
+        Some(b'i') | Some(b'o') => 4,
+        _ => 0,
+    }
+}
+
+pub fn mem_default(seed: u32, a: u16) -> u8 {
+    ((a as u64) * 167 + ((a as u64) / 256) * 29 + (seed as u64) * 59 + 53) as u8
+}
+
+pub fn io_default(seed: u32, p: u16, k: u32) -> u8 {
+    (((p as u64) % 256) * 31 + ((p as u64) / 256) * 17 + (seed as u64) * 7 + (k as u64) * 13 + 90) as u8
+}
+
+/// The recording bus. Memory = default pattern of the seed + a sparse overlay.
+pub struct RBus {
+    pub seed: u32,
+    pub mem: HashMap<u16, u8>,
+    pub io: VecDeque<u8>,
+    pub io_count: u32,
+    pub int: bool,
+    pub nmi: bool,
+    pub busbyte: u8,
+    pub log: Vec<Ev>,
+}
+
+impl RBus {
+    pub fn peek(&self, a: u16) -> u8 {
+        match self.mem.get(&a) {
+            Some(v) => *v,
+            None => mem_default(self.seed, a),
+        }
+    }
+}
+
+impl Z80Bus for RBus {
+    fn read_internal(&mut self, addr: u16) -> u8 {
+        let v = self.peek(addr);
+        self.log.push(Ev::R(addr, v));
+        v
+    }
+    fn write_internal(&mut self, addr: u16, data: u8) {
+        self.mem.insert(addr, data);
+        self.log.push(Ev::W(addr, data));
+    }
+    fn wait_mreq(&mut self, addr: u16, clk: usize) {
+        self.log.push(Ev::M(addr, clk));
+    }
+    fn wait_no_mreq(&mut self, addr: u16, clk: usize) {
+        self.log.push(Ev::N(addr, clk));
+    }
+    fn wait_internal(&mut self, clk: usize) {
+        self.log.push(Ev::I(clk));
+    }
+    fn read_io(&mut self, port: u16) -> u8 {
+        let v = match self.io.pop_front() {
+            Some(v) => v,
+            None => io_default(self.seed, port, self.io_count),
+        };
+        self.io_count += 1;
+        self.log.push(Ev::Ior(port, v));
+        v
+    }
+    fn write_io(&mut self, port: u16, data: u8) {
+        self.log.push(Ev::Iow(port, data));
+    }
+    fn read_interrupt(&mut self) -> u8 {
+        self.log.push(Ev::K(self.busbyte));
+        self.busbyte
+    }
+    fn reti(&mut self) {
+        self.log.push(Ev::T);
+    }
+    fn halt(&mut self, halted: bool) {
+        self.log.push(Ev::H(halted));
+    }
+    fn int_active(&self) -> bool {
+        self.int
+    }
+    fn nmi_active(&self) -> bool {
+        self.nmi
+    }
+    fn pc_callback(&mut self, addr: u16) {
+        self.log.push(Ev::P(addr));
+    }
+}
+
+// ---------------------------------------------------------------------------------------------
+// CPU state
+// ---------------------------------------------------------------------------------------------
+
+pub const PC: usize = 0;
+pub const SP: usize = 1;
+pub const AF: usize = 2;
+pub const BC: usize = 3;
+pub const DE: usize = 4;
+pub const HL: usize = 5;
+pub const AF_: usize = 6;
+pub const BC_: usize = 7;
+pub const DE_: usize = 8;
+pub const HL_: usize = 9;
+pub const IX: usize = 10;
+pub const IY: usize = 11;
+pub const IR: usize = 12;
+pub const MP: usize = 13;
+pub const W_NAMES: [&str; 14] = [
+    "pc", "sp", "af", "bc", "de", "hl", "af'", "bc'", "de'", "hl'", "ix", "iy", "ir", "mp",
+];
+
+pub const FF_IFF1: u8 = 1;
+pub const FF_IFF2: u8 = 2;
+pub const FF_HALTED: u8 = 4;
+pub const FF_SKIP: u8 = 8;
+
+#[derive(Clone, PartialEq, Eq, Debug, Default)]
+pub struct St {
+    pub w: [u16; 14],
+    pub q: u8,
+    pub lq: u8,
+    /// bit0 IFF1, bit1 IFF2, bit2 halted, bit3 skip_interrupt
+    pub ff: u8,
+    pub im: u8,
+    /// 0 none, 1 CB, 2 DD, 3 ED, 4 FD
+    pub ap: u8,
+}
+
+impl St {
+    pub fn text(&self) -> String {
+        let mut s = String::with_capacity(96);
+        for w in &self.w {
+            s.push_str(&format!("{:04x} ", w));
+        }
+        s.push_str(&format!("{:02x} {:02x} {:x} {:x} {:x}", self.q, self.lq, self.ff, self.im, self.ap));
+        s
+    }
+    pub fn parse(t: &[&str]) -> Option<St> {
+        if t.len() < 19 {
+            return None;
+        }
+        let mut st = St::default();
+        for i in 0..14 {
+            st.w[i] = u16::from_str_radix(t[i], 16).ok()?;
+        }
+        st.q = u8::from_str_radix(t[14], 16).ok()?;
+        st.lq = u8::from_str_radix(t[15], 16).ok()?;
+        st.ff = u8::from_str_radix(t[16], 16).ok()?;
+        st.im = u8::from_str_radix(t[17], 16).ok()?;
+        st.ap = u8::from_str_radix(t[18], 16).ok()?;
+        Some(st)
+    }
+    pub fn a(&self) -> u8 {
+        (self.w[AF] >> 8) as u8
+    }
+    pub fn f(&self) -> u8 {
+        self.w[AF] as u8
+    }
+    /// named fields for diffing and keying
+    pub fn fields(&self) -> Vec<(&'static str, u32)> {
+        let w = &self.w;
+        vec![
+            ("pc", w[PC] as u32),
+            ("sp", w[SP] as u32),
+            ("a", (w[AF] >> 8) as u32),
+            ("f", (w[AF] & 0xFF) as u32),
+            ("bc", w[BC] as u32),
+            ("de", w[DE] as u32),
+            ("hl", w[HL] as u32),
+            ("af'", w[AF_] as u32),
+            ("bc'", w[BC_] as u32),
+            ("de'", w[DE_] as u32),
+            ("hl'", w[HL_] as u32),
+            ("ix", w[IX] as u32),
+            ("iy", w[IY] as u32),
+            ("i", (w[IR] >> 8) as u32),
+            ("r", (w[IR] & 0xFF) as u32),
+            ("mp", w[MP] as u32),
+            ("q", self.q as u32),
+            ("lastq", self.lq as u32),
+            ("iff1", (self.ff & 1) as u32),
+            ("iff2", ((self.ff >> 1) & 1) as u32),
+            ("halted", ((self.ff >> 2) & 1) as u32),
+            ("skip", ((self.ff >> 3) & 1) as u32),
+            ("im", self.im as u32),
+            ("prefix", self.ap as u32),
+        ]
+    }
+}
+
+fn prefix_of(ap: u8) -> Prefix {
+    match ap {
+        1 => Prefix::CB,
+        2 => Prefix::DD,
+        3 => Prefix::ED,
+        4 => Prefix::FD,
+        _ => Prefix::None,
+    }
+}
+
+fn prefix_code(p: Prefix) -> u8 {
+    match p {
+        Prefix::None => 0,
+        Prefix::CB => 1,
+        Prefix::DD => 2,
+        Prefix::ED => 3,
+        Prefix::FD => 4,
+    }
+}
+
+pub fn set_state(cpu: &mut Z80, st: &St) {
+    let r = &mut cpu.regs;
+    // alternate set first, then swap it away
+    r.set_af(st.w[AF_]);
+    r.set_bc(st.w[BC_]);
+    r.set_de(st.w[DE_]);
+    r.set_hl(st.w[HL_]);
+    r.swap_af_alt();
+    r.exx();
+    r.set_af(st.w[AF]);
+    r.set_bc(st.w[BC]);
+    r.set_de(st.w[DE]);
+    r.set_hl(st.w[HL]);
+    r.set_pc(st.w[PC]);
+    r.set_sp(st.w[SP]);
+    r.set_ix(st.w[IX]);
+    r.set_iy(st.w[IY]);
+    r.set_i((st.w[IR] >> 8) as u8);
+    r.set_r(st.w[IR] as u8);
+    r.set_mem_ptr(st.w[MP]);
+    r.verif_set_q(st.q, st.lq);
+    r.set_iff1(st.ff & FF_IFF1 != 0);
+    r.set_iff2(st.ff & FF_IFF2 != 0);
+    cpu.halted = st.ff & FF_HALTED != 0;
+    cpu.skip_interrupt = st.ff & FF_SKIP != 0;
+    cpu.set_im(st.im % 3);
+    cpu.verif_set_active_prefix(prefix_of(st.ap));
+}
+
+pub fn get_state(cpu: &mut Z80) -> St {
+    let mut st = St::default();
+    {
+        let r = &mut cpu.regs;
+        st.w[PC] = r.get_pc();
+        st.w[SP] = r.get_sp();
+        st.w[AF] = r.get_af();
+        st.w[BC] = r.get_bc();
+        st.w[DE] = r.get_de();
+        st.w[HL] = r.get_hl();
+        // alternate registers through an exx / ex af,af' round trip (get_h_alt/get_l_alt are
+        // not used: they return H/L, DESIGN §9 #2)
+        r.swap_af_alt();
+        r.exx();
+        st.w[AF_] = r.get_af();
+        st.w[BC_] = r.get_bc();
+        st.w[DE_] = r.get_de();
+        st.w[HL_] = r.get_hl();
+        r.swap_af_alt();
+        r.exx();
+        st.w[IX] = r.get_ix();
+        st.w[IY] = r.get_iy();
+        st.w[IR] = r.get_ir();
+        st.w[MP] = r.get_mem_ptr();
+        st.q = r.verif_q();
+        st.lq = r.get_last_q();
+        st.ff = (r.get_iff1() as u8) | ((r.get_iff2() as u8) << 1);
+    }
+    st.ff |= ((cpu.halted as u8) << 2) | ((cpu.skip_interrupt as u8) << 3);
+    st.im = match cpu.get_im() {
+        IntMode::Im0 => 0,
+        IntMode::Im1 => 1,
+        IntMode::Im2 => 2,
+    };
+    st.ap = prefix_code(cpu.verif_active_prefix());
+    st
+}
+
+// ---------------------------------------------------------------------------------------------
+// cases
+// ---------------------------------------------------------------------------------------------
+
+#[derive(Clone, Copy, PartialEq, Eq, Debug)]
+pub struct Step {
+    /// bit0 INT, bit1 NMI
+    pub lines: u8,
+    pub bus: u8,
+}
+
+#[derive(Clone, Debug)]
+pub struct Case {
+    pub st: St,
+    pub seed: u32,
+    pub io: Vec<u8>,
+    /// overlay, later entries win
+    pub mem: Vec<(u16, Vec<u8>)>,
+    pub steps: Vec<Step>,
+}
+
+impl Case {
+    pub fn mem_text(&self) -> String {
+        if self.mem.is_empty() {
+            return "-".into();
+        }
+        self.mem
+            .iter()
+            .map(|(a, bs)| {
+                if bs.len() > 8 && bs.iter().all(|b| *b == bs[0]) {
+                    format!("{:04x}*{:x}:{:02x}", a, bs.len(), bs[0])
+                } else {
+                    format!("{:04x}:{}", a, hex(bs))
+                }
+            })
+            .collect::<Vec<_>>()
+            .join(",")
+    }
+    pub fn first_line(&self, verb: &str) -> String {
+        format!(
+            "{} {} {:x} {:x} {:02x} {} {}",
+            verb,
+            self.st.text(),
+            self.seed,
+            self.steps[0].lines,
+            self.steps[0].bus,
+            if self.io.is_empty() { "-".to_string() } else { hex(&self.io) },
+            self.mem_text()
+        )
+    }
+    pub fn lines(&self) -> Vec<String> {
+        let mut v = vec![self.first_line("x")];
+        for s in &self.steps[1..] {
+            v.push(format!("n {:x} {:02x}", s.lines, s.bus));
+        }
+        v
+    }
+    pub fn text(&self) -> String {
+        self.lines().join(" ; ")
+    }
+    pub fn parse(text: &str) -> Option<Case> {
+        let mut parts = text.split(';').map(|p| p.trim());
+        let first: Vec<&str> = parts.next()?.split_whitespace().collect();
+        if first.len() != 25 || (first[0] != "x" && first[0] != "c") {
+            return None;
+        }
+        let st = St::parse(&first[1..20])?;
+        let seed = u32::from_str_radix(first[20], 16).ok()?;
+        let lines = u8::from_str_radix(first[21], 16).ok()?;
+        let bus = u8::from_str_radix(first[22], 16).ok()?;
+        let io = if first[23] == "-" { vec![] } else { unhex(first[23]) };
+        let mut mem = vec![];
+        if first[24] != "-" {
+            for part in first[24].split(',') {
+                let mut it = part.split(':');
+                let head = it.next()?;
+                let bytes = unhex(it.next()?);
+                match head.split_once('*') {
+                    Some((a, n)) => {
+                        let a = u16::from_str_radix(a, 16).ok()?;
+                        let n = usize::from_str_radix(n, 16).ok()?;
+                        mem.push((a, vec![*bytes.first()?; n]));
+                    }
+                    None => mem.push((u16::from_str_radix(head, 16).ok()?, bytes)),
+                }
+            }
+        }
+        let mut steps = vec![Step { lines, bus }];
+        for p in parts {
+            let t: Vec<&str> = p.split_whitespace().collect();
+            if t.len() == 3 && (t[0] == "n" || t[0] == "m") {
+                steps.push(Step {
+                    lines: u8::from_str_radix(t[1], 16).ok()?,
+                    bus: u8::from_str_radix(t[2], 16).ok()?,
+                });
+            }
+        }
+        Some(Case { st, seed, io, mem, steps })
+    }
+    pub fn overlay(&self) -> HashMap<u16, u8> {
+        let mut m = HashMap::new();
+        for (a, bs) in &self.mem {
+            for (k, b) in bs.iter().enumerate() {
+                m.insert(a.wrapping_add(k as u16), *b);
+            }
+        }
+        m
+    }
+    pub fn peek(&self, a: u16) -> u8 {
+        let mut v = mem_default(self.seed, a);
+        for (base, bs) in &self.mem {
+            let off = a.wrapping_sub(*base) as usize;
+            if off < bs.len() {
+                v = bs[off];
+            }
+        }
+        v
+    }
+}
+
+/// The real CPU + bus of one case, stepped one `emulate` at a time.
+pub struct Real {
+    pub cpu: Z80,
+    pub bus: RBus,
+}
+
+impl Real {
+    pub fn new(case: &Case) -> Real {
+        let mut cpu = Z80::default();
+        set_state(&mut cpu, &case.st);
+        Real {
+            cpu,
+            bus: RBus {
+                seed: case.seed,
+                mem: case.overlay(),
+                io: case.io.iter().copied().collect(),
+                io_count: 0,
+                int: false,
+                nmi: false,
+                busbyte: 0xFF,
+                log: vec![],
+            },
+        }
+    }
+    /// one `Z80::emulate`; `Err` = the real code panicked
+    pub fn step(&mut self, s: &Step) -> Result<(St, Vec<String>), String> {
+        self.bus.int = s.lines & 1 != 0;
+        self.bus.nmi = s.lines & 2 != 0;
+        self.bus.busbyte = s.bus;
+        self.bus.log.clear();
+        let cpu = &mut self.cpu;
+        let bus = &mut self.bus;
+        let r = catch_unwind(AssertUnwindSafe(|| cpu.emulate(bus)));
+        match r {
+            Ok(()) => Ok((get_state(&mut self.cpu), self.bus.log.iter().map(|e| e.text()).collect())),
+            Err(e) => {
+                let msg = if let Some(s) = e.downcast_ref::<&str>() {
+                    s.to_string()
+                } else if let Some(s) = e.downcast_ref::<String>() {
+                    s.clone()
+                } else {
+                    "panic".to_string()
+                };
+                Err(msg)
+            }
+        }
+    }
+}
+
+// ---------------------------------------------------------------------------------------------
+// labels, comparison
+// ---------------------------------------------------------------------------------------------
+
+/// Which interrupt (if any) the step accepts according to the documented rule; used only to label.
+pub fn accepts(st: &St, s: &Step) -> Option<&'static str> {
+    if st.ff & FF_SKIP != 0 {
+        return None;
+    }
+    if s.lines & 2 != 0 {
+        return Some("nmi");
+    }
+    if s.lines & 1 != 0 && st.ff & FF_IFF1 != 0 {
+        return Some(match st.im {
+            0 => "int-im0",
+            1 => "int-im1",
+            _ => "int-im2",
+        });
+    }
+    None
+}
+
+/// `<prefix bytes><opcode>` of the instruction at PC (pending prefix included), e.g. `ddcb46`.
+pub fn op_label(st: &St, peek: &dyn Fn(u16) -> u8) -> String {
+    let pc = st.w[PC];
+    let mut s = String::new();
+    let mut k = 0u16;
+    let mut page = match st.ap {
+        1 => 0xCB,
+        2 => 0xDD,
+        3 => 0xED,
+        4 => 0xFD,
+        _ => {
+            let b = peek(pc);
+            k = 1;
+            if matches!(b, 0xCB | 0xDD | 0xED | 0xFD) {
+                b
+            } else {
+                return format!("{:02x}", b);
+            }
+        }
+    };
+    s.push_str(&format!("{:02x}", page));
+    if page == 0xDD || page == 0xFD {
+        let b = peek(pc.wrapping_add(k));
+        k += 1;
+        if b == 0xCB {
+            s.push_str("cb");
+            // displacement, then the opcode
+            s.push_str(&format!("{:02x}", peek(pc.wrapping_add(k + 1))));
+            return s;
+        }
+        s.push_str(&format!("{:02x}", b));
+        return s;
+    }
+    if page == 0xCB || page == 0xED {
+        page = peek(pc.wrapping_add(k));
+        s.push_str(&format!("{:02x}", page));
+    }
+    s
+}
+
+#[derive(Clone, Copy, PartialEq, Eq, Debug)]
+pub enum Mode {
+    C01,
+    C02,
+    C03,
+}
+
+impl Mode {
+    pub fn id(self) -> &'static str {
+        match self {
+            Mode::C01 => "C01",
+            Mode::C02 => "C02",
+            Mode::C03 => "C03",
+        }
+    }
+}
+
+pub struct Diff {
+    pub field: String,
+    pub implementation: String,
+    pub expected: String,
+}
+
+fn is_data(t: &str) -> bool {
+    matches!(t.as_bytes()[0], b'R' | b'W' | b'i' | b'o' | b'K' | b'T' | b'H' | b'P')
+}
+
+/// (kind, address, clocks) view of an event; data transfers ride on their `M`
+fn cycle_view(t: &str) -> Option<String> {
+    match t.as_bytes()[0] {
+        b'M' | b'N' | b'I' => Some(t.to_string()),
+        b'i' | b'o' => Some(format!("{}:4", &t[..5])),
+        _ => None,
+    }
+}
+
+/// Compares what the property `mode` names. `loose` (C03, interrupt entry): only the T-state total
+/// and the memory cycles, because the property fixes no order for the internal T-states there.
+pub fn diff(mode: Mode, loose: bool, impl_st: &St, impl_ev: &[String], resp: &str) -> Option<Diff> {
+    let (mst, mev) = match resp.split_once(" |") {
+        Some((a, b)) => (a.trim(), b.trim()),
+        None => {
+            return Some(Diff { field: "driver".into(), implementation: String::new(), expected: resp.to_string() })
+        }
+    };
+    let toks: Vec<&str> = mst.split(' ').collect();
+    let model_st = match St::parse(&toks) {
+        Some(s) => s,
+        None => {
+            return Some(Diff { field: "driver".into(), implementation: String::new(), expected: resp.to_string() })
+        }
+    };
+    let model_ev: Vec<&str> = if mev.is_empty() { vec![] } else { mev.split(' ').collect() };
+    if mode != Mode::C03 {
+        if *impl_st != model_st {
+            for ((n, a), (_, b)) in impl_st.fields().iter().zip(model_st.fields().iter()) {
+                if a != b && !(mode == Mode::C02 && *n == "mp") {
+                    return Some(Diff {
+                        field: n.to_string(),
+                        implementation: format!("{:x}", a),
+                        expected: format!("{:x}", b),
+                    });
+                }
+            }
+        }
+    }
+    match mode {
+        Mode::C01 => {
+            let a: Vec<&str> = impl_ev.iter().map(|s| s.as_str()).filter(|t| is_data(t)).collect();
+            let b: Vec<&str> = model_ev.iter().copied().filter(|t| is_data(t)).collect();
+            if a != b {
+                return Some(Diff { field: "accesses".into(), implementation: a.join(" "), expected: b.join(" ") });
+            }
+        }
+        Mode::C02 => {
+            let a: Vec<&str> = impl_ev.iter().map(|s| s.as_str()).collect();
+            if a != model_ev {
+                return Some(Diff { field: "trace".into(), implementation: a.join(" "), expected: model_ev.join(" ") });
+            }
+        }
+        Mode::C03 => {
+            let ta: u64 = impl_ev.iter().map(|t| ev_tstates(t)).sum();
+            let tb: u64 = model_ev.iter().map(|t| ev_tstates(t)).sum();
+            if ta != tb {
+                return Some(Diff { field: "tstates".into(), implementation: ta.to_string(), expected: tb.to_string() });
+            }
+            let (a, b): (Vec<String>, Vec<String>) = if loose {
+                (
+                    impl_ev.iter().filter(|t| t.starts_with('M')).cloned().collect(),
+                    model_ev.iter().filter(|t| t.starts_with('M')).map(|s| s.to_string()).collect(),
+                )
+            } else {
+                (
+                    impl_ev.iter().filter_map(|t| cycle_view(t)).collect(),
+                    model_ev.iter().filter_map(|t| cycle_view(t)).collect(),
+                )
+            };
+            if a != b {
+                return Some(Diff { field: "cycles".into(), implementation: a.join(" "), expected: b.join(" ") });
+            }
+        }
+    }
+    None
+}
+
+pub struct Failure {
+    pub step: usize,
+    pub label: String,
+    pub diff: Diff,
+    /// the failing step as a one-step case (pre-state and memory as the real code had them)
+    pub single: Case,
+}
+
+/// Runs a case on the real code and on the model; returns the first disagreement.
+/// `on_step(step index, label, pre-state, impl post-state, impl events)` is called for every step the
+/// real code completed.
+pub fn run_case(
+    model: &mut Model,
+    mode: Mode,
+    case: &Case,
+    on_step: &mut dyn FnMut(usize, &str, &St, &St, &[String]),
+) -> Option<Failure> {
+    let answers = model.ask_many(&case.lines());
+    check_case(mode, case, &answers, on_step)
+}
+
+pub fn check_case(
+    mode: Mode,
+    case: &Case,
+    answers: &[String],
+    on_step: &mut dyn FnMut(usize, &str, &St, &St, &[String]),
+) -> Option<Failure> {
+    let mut real = Real::new(case);
+    let mut pre = case.st.clone();
+    let mut failed: Option<Failure> = None;
+    for (k, s) in case.steps.iter().enumerate() {
+        let acc = accepts(&pre, s);
+        let label = match acc {
+            Some(a) => a.to_string(),
+            None => op_label(&pre, &|a| real.bus.peek(a)),
+        };
+        let single = if failed.is_some() {
+            None
+        } else {
+            Some(Case {
+                st: pre.clone(),
+                seed: case.seed,
+                io: real.bus.io.iter().copied().collect(),
+                mem: {
+                    let mut v: Vec<(u16, Vec<u8>)> = real.bus.mem.iter().map(|(a, b)| (*a, vec![*b])).collect();
+                    v.sort();
+                    v
+                },
+                steps: vec![*s],
+            })
+        };
+        match real.step(s) {
+            Err(msg) => {
+                if failed.is_some() {
+                    return failed;
+                }
+                return Some(Failure {
+                    step: k,
+                    label,
+                    diff: Diff { field: "panic".into(), implementation: msg, expected: answers[k].clone() },
+                    single: single.unwrap(),
+                });
+            }
+            Ok((post, evs)) => {
+                let loose = mode == Mode::C03 && acc.is_some();
+                // called for every step the real code completed, agreeing with the model or not
+                on_step(k, &label, &pre, &post, &evs);
+                if failed.is_none() {
+                    if let Some(d) = diff(mode, loose, &post, &evs, &answers[k]) {
+                        failed = Some(Failure { step: k, label, diff: d, single: single.unwrap() });
+                        if mode != Mode::C02 {
+                            return failed;
+                        }
+                        // C02: the real code keeps running so that the property's predicates are also
+                        // evaluated on the boundaries behind the first divergence from the model
+                    } else if mode == Mode::C02 && !answers[k].starts_with(&post.text()) {
+                        // only the hidden MEMPTR differs (the subject of C01, not compared by C02): the two
+                        // sides would carry different hidden state from here on, so the run ends here
+                        return None;
+                    }
+                }
+                pre = post;
+            }
+        }
+    }
+    failed
+}
+
+pub fn key_of(mode: Mode, f: &Failure) -> String {
+    format!("{}/op={}/field={}", mode.id(), f.label, f.diff.field)
+}
+
+/// Makes the failing step small: zero registers, latches and control bits, pin the bytes the step
+/// reads and drop the rest of the overlay, seed 0 — every candidate is re-run on the real code and
+/// on the model and must fail with the same key.
+pub fn shrink(model: &mut Model, mode: Mode, f: Failure) -> Failure {
+    let key = key_of(mode, &f);
+    let mut cur = f;
+    let still = |model: &mut Model, c: &Case| -> Option<Failure> {
+        let r = run_case(model, mode, c, &mut |_, _, _, _, _| {});
+        match r {
+            Some(f2) if key_of(mode, &f2) == key => Some(f2),
+            _ => None,
+        }
+    };
+    // pin what the step reads, drop every other overlay byte, default pattern of seed 0
+    {
+        let mut real = Real::new(&cur.single);
+        let step = cur.single.steps[0];
+        let before: Vec<(u16, u8)> = {
+            let _ = real.step(&step);
+            real.bus
+                .log
+                .iter()
+                .filter_map(|e| if let Ev::R(a, v) = e { Some((*a, *v)) } else { None })
+                .collect()
+        };
+        let mut cand = cur.single.clone();
+        let mut pinned: Vec<(u16, Vec<u8>)> = vec![];
+        for (a, _) in &before {
+            if !pinned.iter().any(|(x, _)| x == a) {
+                pinned.push((*a, vec![cur.single.peek(*a)]));
+            }
+        }
+        cand.mem = pinned;
+        cand.seed = 0;
+        if let Some(f2) = still(model, &cand) {
+            cur = f2;
+            cur.single = cand;
+        }
+    }
+    let mut changed = true;
+    let mut rounds = 0;
+    while changed && rounds < 4 {
+        changed = false;
+        rounds += 1;
+        for i in 1..14 {
+            let w = cur.single.st.w[i];
+            for v in [0u16, w & 0x00FF, w & 0xFF00] {
+                if v != w {
+                    let mut cand = cur.single.clone();
+                    cand.st.w[i] = v;
+                    if let Some(f2) = still(model, &cand) {
+                        cur = f2;
+                        cur.single = cand;
+                        changed = true;
+                        break;
+                    }
+                }
+            }
+        }
+        for which in 0..4 {
+            let mut cand = cur.single.clone();
+            match which {
+                0 => cand.st.q = 0,
+                1 => cand.st.lq = 0,
+                2 => cand.st.im = 0,
+                _ => cand.io.clear(),
+            }
+            if cand.st != cur.single.st || cand.io != cur.single.io {
+                if let Some(f2) = still(model, &cand) {
+                    cur = f2;
+                    cur.single = cand;
+                    changed = true;
+                }
+            }
+        }
+        for bit in [FF_IFF1, FF_IFF2, FF_HALTED, FF_SKIP] {
+            if cur.single.st.ff & bit != 0 {
+                let mut cand = cur.single.clone();
+                cand.st.ff &= !bit;
+                if let Some(f2) = still(model, &cand) {
+                    cur = f2;
+                    cur.single = cand;
+                    changed = true;
+                }
+            }
+        }
+        // overlay entries the failure does not need (seed 0 pattern takes over)
+        let mut i = 0;
+        while i < cur.single.mem.len() {
+            let mut cand = cur.single.clone();
+            cand.mem.remove(i);
+            if let Some(f2) = still(model, &cand) {
+                cur = f2;
+                cur.single = cand;
+                changed = true;
+            } else {
+                i += 1;
+            }
+        }
+        // operand bytes in memory towards zero (never the first byte at PC: it names the opcode)
+        let n = cur.single.mem.len();
+        for i in 0..n {
+            let (a, bs) = cur.single.mem[i].clone();
+            if bs.len() == 1 && bs[0] != 0 && a != cur.single.st.w[PC] {
+                let mut cand = cur.single.clone();
+                cand.mem[i].1[0] = 0;
+                if let Some(f2) = still(model, &cand) {
+                    cur = f2;
+                    cur.single = cand;
+                    changed = true;
+                }
+            }
+        }
+    }
+    cur
+}
+
+pub fn record(model: &mut Model, rep: &mut Report, mode: Mode, f: Failure) {
+    let key = key_of(mode, &f);
+    if rep.has_key(&key) {
+        rep.count("repeat_violations", key);
+        return;
+    }
+    let f = shrink(model, mode, f);
+    // what rustzx's own MEMPTR arithmetic (Variant.code of the model) predicts, for the report
+    let code_variant = model.ask(&f.single.first_line("c"));
+    let what = format!(
+        "{} at pc={:04x}: {} is {} in rustzx, {} on the Z80 reference (state: {}; memory: {})",
+        f.label,
+        f.single.st.w[PC],
+        f.diff.field,
+        f.diff.implementation,
+        f.diff.expected,
+        f.single.st.text(),
+        f.single.mem_text()
+    );
+    rep.violation(Violation {
+        kind: Kind::SpecViolated,
+        key,
+        what,
+        correspondence: format!(
+            "corr.{}.z80.step (Z80::emulate vs ZxVerif.Z80.emulate Variant.hw on the recording bus); code-variant model says: {}",
+            mode.id(),
+            code_variant
+        ),
+        case: J::obj(vec![("text", J::s(f.single.text()))]),
+        implementation: f.diff.implementation.clone(),
+        expected: f.diff.expected.clone(),
+    });
+}
+
+// ---------------------------------------------------------------------------------------------
+// generators
+// ---------------------------------------------------------------------------------------------
+
+pub const PAGES: [&str; 7] = ["", "cb", "ed", "dd", "fd", "ddcb", "fdcb"];
+
+pub fn edge8(rng: &mut Rng) -> u8 {
+    if rng.chance(1, 2) {
+        rng.u8()
+    } else {
+        *rng.pick(&[0x00, 0xFF, 0x7F, 0x80, 0x01, 0x0F, 0x10, 0xFE])
+    }
+}
+
+pub fn edge16(rng: &mut Rng) -> u16 {
+    ((edge8(rng) as u16) << 8) | edge8(rng) as u16
+}
+
+pub fn random_state(rng: &mut Rng) -> St {
+    let mut st = St::default();
+    for i in 0..14 {
+        st.w[i] = edge16(rng);
+    }
+    if rng.chance(1, 12) {
+        st.w[PC] = 0xFFFC + rng.below(4) as u16;
+    }
+    if rng.chance(1, 12) {
+        st.w[SP] = *rng.pick(&[0x0000, 0x0001, 0x0002, 0xFFFF]);
+    }
+    st.q = if rng.bool() { st.f() } else { rng.u8() };
+    st.lq = edge8(rng);
+    st.ff = (rng.u8() & 3) | if rng.chance(1, 8) { FF_HALTED } else { 0 } | if rng.chance(1, 8) { FF_SKIP } else { 0 };
+    st.im = rng.below(3) as u8;
+    st.ap = 0;
+    st
+}
+
+/// state kinds of the exhaustive sweep; the first nine force the timing/flag variants
+pub const STATE_KINDS: [&str; 9] = [
+    "f=00", "f=ff", "b=1", "b=2", "bc=1", "bc=2", "a=(hl)", "all-zero", "all-ff",
+];
+
+/// One single-step case for encoding (page, op) and state kind `kind` (>= 9: random).
+pub fn sweep_case(rng: &mut Rng, page: usize, op: u8, kind: usize) -> Case {
+    let mut st = random_state(rng);
+    match kind {
+        0 => st.w[AF] &= 0xFF00,
+        1 => st.w[AF] |= 0x00FF,
+        2 => st.w[BC] = 0x0100 | (st.w[BC] & 0xFF),
+        3 => st.w[BC] = 0x0200 | (st.w[BC] & 0xFF),
+        4 => st.w[BC] = 1,
+        5 => st.w[BC] = 2,
+        7 => {
+            let pc = st.w[PC];
+            st = St::default();
+            st.w[PC] = pc;
+        }
+        8 => {
+            let pc = st.w[PC];
+            for i in 0..14 {
+                st.w[i] = 0xFFFF;
+            }
+            st.w[PC] = pc;
+            st.q = 0xFF;
+            st.lq = 0xFF;
+            st.ff = 3;
+        }
+        _ => {}
+    }
+    let d = match kind {
+        7 => 0xFF,
+        8 => 0x00,
+        _ => edge8(rng),
+    };
+    let mut code: Vec<u8> = match page {
+        0 => vec![op],
+        1 => vec![0xCB, op],
+        2 => vec![0xED, op],
+        3 => vec![0xDD, op],
+        4 => vec![0xFD, op],
+        5 => vec![0xDD, 0xCB, d, op],
+        _ => vec![0xFD, 0xCB, d, op],
+    };
+    let first_operand = code.len();
+    if page == 3 || page == 4 {
+        code.push(d);
+    }
+    while code.len() < first_operand + 3 {
+        // all-zero registers meet FF operand bytes and vice versa (carries out of every byte)
+        code.push(match kind {
+            7 => 0xFF,
+            8 => 0x00,
+            _ => edge8(rng),
+        });
+    }
+    // sometimes the prefix is pending from the previous call instead of sitting in memory
+    if page >= 1 && kind % 6 == 5 {
+        st.ap = match code[0] {
+            0xCB => 1,
+            0xDD => 2,
+            0xED => 3,
+            _ => 4,
+        };
+        code.remove(0);
+        st.ff |= FF_SKIP;
+    }
+    let mut mem = vec![(st.w[PC], code)];
+    if kind == 6 {
+        // A = (HL) = (IX+d) = (IY+d): the "found" outcome of CPI/CPD/CPIR/CPDR, equal operands elsewhere
+        let a = st.a();
+        let dd = d as i8 as i16 as u16;
+        mem.push((st.w[HL], vec![a]));
+        mem.push((st.w[IX].wrapping_add(dd), vec![a]));
+        mem.push((st.w[IY].wrapping_add(dd), vec![a]));
+        // keep the instruction bytes on top
+        let code = mem.remove(0);
+        mem.push(code);
+    }
+    Case { st, seed: rng.next() as u32 & 0xFFFF, io: vec![edge8(rng)], mem, steps: vec![Step { lines: 0, bus: 0xFF }] }
+}
+
+/// a random instruction encoding (all seven pages)
+pub fn random_instr(rng: &mut Rng) -> Vec<u8> {
+    let op = rng.u8();
+    let mut v = match rng.below(12) {
+        0..=4 => vec![op],
+        5 => vec![0xCB, op],
+        6 | 7 => vec![0xED, if rng.bool() { 0x40 + (op & 0x7F) } else { op }],
+        8 => vec![0xDD, op],
+        9 => vec![0xFD, op],
+        10 => vec![0xDD, 0xCB, edge8(rng), op],
+        _ => vec![0xFD, 0xCB, edge8(rng), op],
+    };
+    for _ in 0..2 {
+        v.push(edge8(rng));
+    }
+    v
+}
+
+/// random instruction sequence with carried state (no interrupts)
+pub fn sequence_case(rng: &mut Rng) -> Case {
+    let mut st = random_state(rng);
+    st.ff &= !FF_HALTED;
+    let mut code = vec![];
+    let n = rng.range(2, 12) as usize;
+    for _ in 0..n {
+        code.extend(random_instr(rng));
+    }
+    let io: Vec<u8> = (0..rng.below(3)).map(|_| edge8(rng)).collect();
+    Case {
+        st: st.clone(),
+        seed: rng.next() as u32 & 0xFFFF,
+        io,
+        mem: vec![(st.w[PC], code)],
+        steps: vec![Step { lines: 0, bus: 0xFF }; n],
+    }
+}
+
+/// Interrupt-entry cases (used by C03 for the 13/19/11 totals and by C02).
+pub fn int_entry_case(rng: &mut Rng, im: u8, nmi: bool, halted: bool) -> Case {
+    let mut st = random_state(rng);
+    st.im = im;
+    st.ff = FF_IFF1 | (rng.u8() & FF_IFF2) | if halted { FF_HALTED } else { 0 };
+    st.ap = 0;
+    let mut mem = vec![];
+    if halted {
+        mem.push((st.w[PC], vec![0x76]));
+    }
+    // a NOP at the three possible targets keeps the instruction part of the step at 4 T
+    mem.push((0x0038, vec![0x00]));
+    mem.push((0x0066, vec![0x00]));
+    let bus = edge8(rng);
+    let vec_addr = (st.w[IR] & 0xFF00) | bus as u16;
+    let target = 0x4000 + (rng.u16() & 0x3FFF);
+    mem.push((vec_addr, vec![target as u8]));
+    mem.push((vec_addr.wrapping_add(1), vec![(target >> 8) as u8]));
+    mem.push((target, vec![0x00]));
+    Case {
+        st,
+        seed: rng.next() as u32 & 0xFFFF,
+        io: vec![],
+        mem,
+        steps: vec![Step { lines: if nmi { 2 } else { 1 }, bus }],
+    }
+}
+
+// ---------------------------------------------------------------------------------------------
+// the shared sweep (C01 and C03 differ only in what `diff` compares)
+// ---------------------------------------------------------------------------------------------
+
+thread_local! {
+    /// (label, T-states) classes seen so far, kept to check afterwards that every timing variant was reached
+    static SEEN: std::cell::RefCell<std::collections::BTreeSet<String>> = std::cell::RefCell::new(Default::default());
+}
+
+/// every timing variant the property names must have been observed on the real code
+fn variant_coverage(rep: &mut Report) {
+    let mut want: Vec<String> = vec![];
+    for op in ["edb0", "edb8", "edb1", "edb9", "edb2", "edba", "edb3", "edbb"] {
+        want.push(format!("{} T=16", op));
+        want.push(format!("{} T=21", op));
+    }
+    want.push("10 T=8".into());
+    want.push("10 T=13".into());
+    for op in [0x20u8, 0x28, 0x30, 0x38] {
+        want.push(format!("{:02x} T=7", op));
+        want.push(format!("{:02x} T=12", op));
+    }
+    for y in 0..8u8 {
+        want.push(format!("{:02x} T=5", 0xC0 | (y << 3)));
+        want.push(format!("{:02x} T=11", 0xC0 | (y << 3)));
+        want.push(format!("{:02x} T=10", 0xC4 | (y << 3)));
+        want.push(format!("{:02x} T=17", 0xC4 | (y << 3)));
+    }
+    for (l, t) in [("ddcb46", 20), ("fdcb7e", 20), ("ddcb06", 23), ("fdcbfe", 23), ("dd34", 23), ("fd36", 19), ("dd7e", 19),
+        ("cb46", 12), ("cb06", 15), ("e3", 19), ("dde3", 23), ("nmi", 15), ("int-im0", 17), ("int-im1", 17), ("int-im2", 23)]
+    {
+        want.push(format!("{} T={}", l, t));
+    }
+    let missing: Vec<J> = SEEN.with(|s| {
+        let s = s.borrow();
+        want.iter().filter(|w| !s.contains(*w)).map(|w| J::s(w.clone())).collect()
+    });
+    if !missing.is_empty() {
+        rep.notes.push("generator weakness: some timing variants were not reached in this run (see timing_variants_missing)".into());
+    }
+    rep.extra.push(("timing_variants_checked".into(), J::I(want.len() as i64)));
+    rep.extra.push(("timing_variants_missing".into(), J::A(missing)));
+}
+
+pub fn run_batch(model: &mut Model, rep: &mut Report, mode: Mode, cases: &[Case], hist: &str) {
+    let mut lines = vec![];
+    for c in cases {
+        lines.extend(c.lines());
+    }
+    let answers = model.ask_many(&lines);
+    let mut k = 0;
+    let mut failures = vec![];
+    for c in cases {
+        let n = c.steps.len();
+        let r = check_case(mode, c, &answers[k..k + n], &mut |_, label, _pre, _post, evs| {
+            rep.eval();
+            let t: u64 = evs.iter().map(|e| ev_tstates(e)).sum();
+            rep.class(format!("{} T={}", label, t));
+            SEEN.with(|s| s.borrow_mut().insert(format!("{} T={}", label, t)));
+            rep.count(hist, format!("T={:02}", t));
+        });
+        k += n;
+        if let Some(f) = r {
+            failures.push(f);
+        }
+    }
+    for f in failures {
+        record(model, rep, mode, f);
+    }
+}
+
+
+const TABLE_NAMES: [(&str, usize); 8] = [
+    ("HALF_CARRY_ADD_TABLE", 8),
+    ("HALF_CARRY_SUB_TABLE", 8),
+    ("OVERFLOW_ADD_TABLE", 8),
+    ("OVERFLOW_SUB_TABLE", 8),
+    ("PARITY_TABLE", 256),
+    ("F3F5_TABLE", 256),
+    ("SZF3F5_TABLE", 256),
+    ("SZPF3F5_TABLE", 256),
+];
+
+/// `pub const NAME: [u8; N] = [ ... ];` out of tables/mod.rs; None if the text cannot be located
+fn parse_table(src: &str, name: &str, n: usize) -> Option<Vec<u8>> {
+    let head = format!("pub const {}: [u8; {}] = [", name, n);
+    let start = src.find(&head)? + head.len();
+    let end = start + src[start..].find("];")?;
+    let mut vals = vec![];
+    for tok in src[start..end].split(',') {
+        let t = tok.trim();
+        if t.is_empty() {
+            continue;
+        }
+        let t = t.strip_prefix("0x").or_else(|| t.strip_prefix("0X"))?;
+        vals.push(u8::from_str_radix(t, 16).ok()?);
+    }
+    if vals.len() == n {
+        Some(vals)
+    } else {
+        None
+    }
+}
+
+/// Textual tie (DESIGN 3b): the flag tables in the working tree against the committed Lean copy the
+/// table theorems are proved about. A table that cannot be located is skipped (never an alarm);
+/// a located table that differs makes the run add the exhaustive operand sweeps.
+pub fn table_tie(rep: &mut Report, model: &mut Model) -> bool {
+    let path = ".cache/repo/rustzx-z80/src/tables/mod.rs";
+    let mut used = vec![];
+    let mut skipped = vec![];
+    let mut differing = vec![];
+    let lean: Vec<Vec<u8>> = model.ask("t").split(' ').map(unhex).collect();
+    match std::fs::read_to_string(path) {
+        Ok(src) if lean.len() == 8 => {
+            for (i, (name, n)) in TABLE_NAMES.iter().enumerate() {
+                match parse_table(&src, name, *n) {
+                    None => skipped.push(J::s(*name)),
+                    Some(vals) => {
+                        used.push(J::s(*name));
+                        for k in 0..*n {
+                            if lean[i].get(k) != Some(&vals[k]) {
+                                differing.push(J::s(format!("{}[{}]", name, k)));
+                            }
+                        }
+                    }
+                }
+            }
+        }
+        _ => {
+            for (name, _) in TABLE_NAMES.iter() {
+                skipped.push(J::s(*name));
+            }
+        }
+    }
+    let differs = !differing.is_empty();
+    rep.extra.push((
+        "extractor".into(),
+        J::obj(vec![
+            ("source", J::s(path)),
+            ("used", J::A(used)),
+            ("skipped", J::A(skipped)),
+            ("differs_from_committed_copy", J::A(differing)),
+        ]),
+    ));
+    if differs {
+        rep.notes.push(
+            "flag tables in the working tree differ from lean/ZxVerif/Extracted/Z80Tables.lean: the table theorems \
+speak about the committed copy; exhaustive operand sweeps added to this run"
+                .into(),
+        );
+    }
+    differs
+}
+
+/// Exhaustive operand spaces of the table-driven instructions: 8 ALU ops x A x operand x carry,
+/// INC/DEC x operand x F, CB rotates x operand x carry, DAA x A x (N,H,C), NEG x A, CPI x A x (HL),
+/// ADC/SBC HL over boundary-rich 16-bit operands.
+pub fn exhaustive_operands(model: &mut Model, rep: &mut Report, mode: Mode) {
+    let base = |pc: u16| {
+        let mut st = St::default();
+        st.w[PC] = pc;
+        st.w[SP] = 0xF000;
+        st
+    };
+    let one = |st: St, code: Vec<u8>, extra: Vec<(u16, Vec<u8>)>| {
+        let mut mem = extra;
+        mem.push((st.w[PC], code));
+        Case { st, seed: 0, io: vec![], mem, steps: vec![Step { lines: 0, bus: 0xFF }] }
+    };
+    let mut batch: Vec<Case> = vec![];
+    let mut flush = |batch: &mut Vec<Case>, model: &mut Model, rep: &mut Report, force: bool| {
+        if batch.len() >= 512 || (force && !batch.is_empty()) {
+            run_batch(model, rep, mode, batch, "tstates_exhaustive_operands");
+            batch.clear();
+        }
+    };
+    for op in 0..8u8 {
+        for a in 0..=255u8 {
+            for b in 0..=255u8 {
+                for c in 0..2u8 {
+                    let mut st = base(0x8000);
+                    st.w[AF] = ((a as u16) << 8) | c as u16;
+                    st.w[BC] = (b as u16) << 8;
+                    batch.push(one(st, vec![0x80 | (op << 3)], vec![]));
+                    flush(&mut batch, model, rep, false);
+                }
+            }
+        }
+    }
+    for x in 0..=255u8 {
+        for f in [0x00u8, 0xFF, 0x01, 0xD7] {
+            for opc in [0x04u8, 0x05] {
+                let mut st = base(0x8000);
+                st.w[AF] = f as u16;
+                st.w[BC] = (x as u16) << 8;
+                batch.push(one(st, vec![opc], vec![]));
+            }
+            for k in 0..8u8 {
+                let mut st = base(0x8000);
+                st.w[AF] = f as u16;
+                st.w[BC] = (x as u16) << 8;
+                batch.push(one(st, vec![0xCB, k << 3], vec![]));
+            }
+            for opc in [0x07u8, 0x0F, 0x17, 0x1F, 0x2F, 0x37, 0x3F] {
+                let mut st = base(0x8000);
+                st.w[AF] = ((x as u16) << 8) | f as u16;
+                st.lq = f ^ 0x28;
+                batch.push(one(st, vec![opc], vec![]));
+            }
+            flush(&mut batch, model, rep, false);
+        }
+        for nhc in 0..8u8 {
+            let f = ((nhc & 1) * 0x01) | (((nhc >> 1) & 1) * 0x10) | (((nhc >> 2) & 1) * 0x02);
+            let mut st = base(0x8000);
+            st.w[AF] = ((x as u16) << 8) | f as u16;
+            batch.push(one(st, vec![0x27], vec![]));
+        }
+        let mut st = base(0x8000);
+        st.w[AF] = (x as u16) << 8;
+        batch.push(one(st, vec![0xED, 0x44], vec![]));
+        for m in 0..=255u8 {
+            let mut st = base(0x8000);
+            st.w[AF] = (x as u16) << 8;
+            st.w[HL] = 0x9000;
+            st.w[BC] = 0x0002;
+            batch.push(one(st, vec![0xED, 0xA1], vec![(0x9000, vec![m])]));
+            flush(&mut batch, model, rep, false);
+        }
+    }
+    let edges: [u16; 12] = [0x0000, 0x0001, 0x0FFF, 0x1000, 0x7FFF, 0x8000, 0x8001, 0xF000, 0xFFFF, 0x0800, 0x07FF, 0xEFFF];
+    for &h in edges.iter() {
+        for &r in edges.iter() {
+            for c in 0..2u16 {
+                for opc in [0x42u8, 0x4A] {
+                    let mut st = base(0x8000);
+                    st.w[AF] = c;
+                    st.w[HL] = h;
+                    st.w[BC] = r;
+                    batch.push(one(st, vec![0xED, opc], vec![]));
+                }
+                let mut st = base(0x8000);
+                st.w[AF] = c;
+                st.w[HL] = h;
+                st.w[BC] = r;
+                batch.push(one(st, vec![0x09], vec![]));
+            }
+        }
+    }
+    flush(&mut batch, model, rep, true);
+}
+
+pub fn sweep(o: &Opts, mode: Mode, rep: &mut Report, model: &mut Model) {
+    let mut rng = Rng::new(o.seed ^ 0xC01);
+    let tables_differ = table_tie(rep, model);
+    if o.thorough() || tables_differ {
+        exhaustive_operands(model, rep, mode);
+    }
+    let random_states = o.n(13, 400) as usize;
+    let kinds = STATE_KINDS.len() + random_states;
+    // 1. all 1792 encodings x state kinds
+    for page in 0..7 {
+        for opn in 0..256usize {
+            let mut cases = Vec::with_capacity(kinds);
+            for kind in 0..kinds {
+                cases.push(sweep_case(&mut rng, page, opn as u8, kind));
+            }
+            run_batch(model, rep, mode, &cases, "tstates_single_step");
+            rep.count_n("encodings_by_page", if page == 0 { "none" } else { PAGES[page] }, 1);
+        }
+    }
+    rep.sample(J::s(sweep_case(&mut rng, 2, 0xB0, 5).text()));
+    rep.sample(J::s(sweep_case(&mut rng, 5, 0x46, 6).text()));
+    // 2. instruction sequences with carried state
+    let seqs = o.n(2000, 200_000);
+    let mut batch = vec![];
+    for s in 0..seqs {
+        let c = sequence_case(&mut rng);
+        rep.count("sequence_length", format!("{:02}", c.steps.len()));
+        if s == 0 {
+            rep.sample(J::s(c.text()));
+        }
+        batch.push(c);
+        if batch.len() == 64 || s + 1 == seqs {
+            run_batch(model, rep, mode, &batch, "tstates_in_sequences");
+            batch.clear();
+        }
+    }
+    // 2b. every encoding followed by SCF / CCF: the Q latch observed through the architected flags
+    // (bits 5/3 of F after SCF/CCF are ((lastQ ^ F) | A) & 0x28), not only through the hook
+    {
+        let mut batch = vec![];
+        for page in 0..7 {
+            for opn in 0..256usize {
+                for follow in [0x37u8, 0x3F] {
+                    let mut c = sweep_case(&mut rng, page, opn as u8, 9);
+                    c.st.ap = c.st.ap.min(4);
+                    // where does the instruction leave PC? ask the real code, then plant SCF/CCF there
+                    let mut probe = Real::new(&c);
+                    if let Ok((post, _)) = probe.step(&c.steps[0]) {
+                        if post.ap == 0 {
+                            c.mem.insert(0, (post.w[PC], vec![follow]));
+                            c.steps.push(Step { lines: 0, bus: 0xFF });
+                        }
+                    }
+                    batch.push(c);
+                }
+                if batch.len() >= 128 {
+                    run_batch(model, rep, mode, &batch, "tstates_followed_by_scf_ccf");
+                    batch.clear();
+                }
+            }
+        }
+        run_batch(model, rep, mode, &batch, "tstates_followed_by_scf_ccf");
+    }
+    // 3. interrupt entry (cycle totals 13 / 19 / 11; HALT release)
+    let mut cases = vec![];
+    for _ in 0..o.n(40, 2000) {
+        for im in 0..3u8 {
+            for nmi in [false, true] {
+                for halted in [false, true] {
+                    cases.push(int_entry_case(&mut rng, im, nmi, halted));
+                }
+            }
+        }
+    }
+    run_batch(model, rep, mode, &cases, "tstates_interrupt_entry");
+    variant_coverage(rep);
+    rep.extra.push(("encodings".into(), J::I(1792)));
+    rep.extra.push(("states_per_encoding".into(), J::I(kinds as i64)));
+    rep.extra.push(("sequences".into(), J::I(seqs as i64)));
+    rep.extra.push(("model_requests".into(), J::I(model.requests as i64)));
+}
+
+pub fn replay(o: &Opts, mode: Mode, rep: &mut Report, model: &mut Model, text: &str) {
+    match Case::parse(text) {
+        Some(c) => {
+            rep.sample(J::s(c.text()));
+            let _ = o;
+            let r = run_case(model, mode, &c, &mut |_, label, _, _, evs| {
+                let t: u64 = evs.iter().map(|e| ev_tstates(e)).sum();
+                rep.eval();
+                rep.class(format!("{} T={}", label, t));
+            });
+            if let Some(f) = r {
+                record(model, rep, mode, f);
+            }
+        }
+        None => rep.notes.push(format!("cannot parse replay case: {}", text)),
+    }
+}
+
+pub fn run(o: &Opts) -> Report {
     let mut rep = Report::new("C01");
-    rep.notes.push("not built yet".into());
+    rep.rule = "all 1792 opcode encodings (256 x {none,CB,ED,DD,FD,DDCB,FDCB}) x 9 forced start states (F=00, F=FF, \
+B=1, B=2, BC=1, BC=2, A=(HL)=(IX+d)=(IY+d), all registers 0, all registers FF) + seeded random states with \
+boundary-biased registers/operands (some with the prefix pending from a previous call), one Z80::emulate each; then \
+random instruction sequences (2-12 instructions of all pages, state carried on both sides), every encoding \
+followed by SCF and by CCF (Q latch seen through F), and interrupt-entry steps. Compared per step: every register incl. alternates, I, R, IFF1/2, IM, MEMPTR, Q, lastQ, halted, \
+skip_interrupt, pending prefix, and the ordered memory/port reads and writes with addresses and data. \
+distinct/non-trivial = distinct (encoding or interrupt kind, T-states consumed) pairs observed on the real code \
+in agreeing steps"
+        .into();
+    let mut model = Model::spawn(&o.model, "C01");
+    if let Some(text) = &o.replay {
+        replay(o, Mode::C01, &mut rep, &mut model, text);
+        return rep;
+    }
+    sweep(o, Mode::C01, &mut rep, &mut model);
     rep
 }
